@@ -163,7 +163,7 @@ def main():
                                 '-DCMAKE_BUILD_TYPE=RelWithDebInfo && cmake '
                                 '--build /repo/_build && ctest --test-dir '
                                 '/repo/_build -j8 --timeout 900',
-            'source_commits': ['59a5012', 'f49e69e', 'f5b7632', '371cd68'],
+            'source_commits': ['59a5012', 'f49e69e', 'f5b7632', '371cd68', '7b2f8ad'],
             'add_only': True,
         },
         'engines': [{
